@@ -57,7 +57,14 @@ def _num(x):
             return NF(True, 0)
         if x in (math.inf, -math.inf):
             return INF if x > 0 else NINF
-        return Fraction(x)
+        fr = Fraction(x)
+        if fr.denominator > 2 ** 20:
+            # a python float produced by float arithmetic inside the library (0.0 + 1 ... / ...): snap to the
+            # nearby small rational it stands for (a wrong snap can only yield a non-reproducing model)
+            cand = fr.limit_denominator(10 ** 6)
+            if abs(cand - fr) <= Fraction(1, 10 ** 12) * max(1, abs(fr)):
+                return cand
+        return fr
     return x
 
 
@@ -89,12 +96,35 @@ class SV:
             return NotImplemented
         b = _num(o)
         if isinstance(b, _Inf) or isinstance(self.v, _Inf):
-            raise Unsupported("arithmetic with infinity")
+            return self._inf_arith(b, f, swap)
         a = self.v
         if isinstance(b, (str, bytes, type(None), list, tuple, dict)):
             return NotImplemented
         r = f(b, a) if swap else f(a, b)
         return wrap(r) if not isinstance(r, (int,)) or isinstance(r, bool) else SV(r)
+
+    def _inf_arith(self, b, f, swap):
+        """IEEE arithmetic with an infinite operand"""
+        name = getattr(f, "__name__", "")
+        binf = math.inf * b.sign
+        if not sx.is_sym(self.v):
+            x, y = (binf, float(self.v)) if swap else (float(self.v), binf)
+            try:
+                r = {"add": x + y, "sub": x - y, "mul": x * y if not (x == 0 or y == 0) else math.nan}.get(name)
+                if r is None:
+                    r = x / y if name == "_div" else None
+            except ZeroDivisionError:
+                r = math.nan
+            if r is None:
+                raise Unsupported(f"{name} with infinity")
+            return r if (r != r or abs(r) == math.inf) else SV(Fraction(r))
+        # symbolic finite value
+        if name == "_div" and not swap:
+            return SV(0)                       # finite / inf
+        if name in ("add", "sub"):
+            sign = b.sign if (name == "add" or swap) else -b.sign
+            return math.inf * sign
+        raise Unsupported(f"{name} of a symbolic value with infinity")
 
     def __add__(self, o):
         return self._bin(o, sx.add)
@@ -678,6 +708,8 @@ class SymNd(np.ndarray):
         super().__setitem__(self._fixkey(key), value)
 
     def astype(self, dtype, *a, **kw):
+        if dtype is float_shim:
+            dtype = float
         dt = np.dtype(dtype) if dtype is not object else np.dtype(object)
         if dt == object:
             return self.copy()
@@ -833,6 +865,7 @@ def sym(shape, prefix, kind="real"):
 
 def to_symnd(x):
     """wrap exact values of an array-like as SymNd (floats -> Fractions)"""
+    return exactify(np.asarray(x, dtype=object) if not isinstance(x, np.ndarray) else x.astype(object))
     a = np.asarray(x)
     out = np.empty(a.shape, dtype=object)
     of, af = out.ravel(), a.ravel()
@@ -884,25 +917,25 @@ class NpProxy(types.ModuleType):
 
     # creation: object arrays so that symbolic values can be stored later
     def zeros(self, shape, dtype=float, **kw):
-        return SymNd(_real_np.zeros(shape, dtype=object) + 0)
+        return exactify(_real_np.zeros(shape, dtype=object) + 0)
 
     def ones(self, shape, dtype=float, **kw):
-        return SymNd(_real_np.zeros(shape, dtype=object) + 1)
+        return exactify(_real_np.zeros(shape, dtype=object) + 1)
 
     def empty(self, shape, dtype=float, **kw):
-        return SymNd(_real_np.zeros(shape, dtype=object) + 0)
+        return exactify(_real_np.zeros(shape, dtype=object) + 0)
 
     def zeros_like(self, a, dtype=None, **kw):
-        return SymNd(_real_np.zeros(_real_np.shape(a), dtype=object) + 0)
+        return exactify(_real_np.zeros(_real_np.shape(a), dtype=object) + 0)
 
     def ones_like(self, a, dtype=None, **kw):
-        return SymNd(_real_np.zeros(_real_np.shape(a), dtype=object) + 1)
+        return exactify(_real_np.zeros(_real_np.shape(a), dtype=object) + 1)
 
     def identity(self, n, dtype=None):
-        return SymNd(_real_np.identity(n, dtype=int).astype(object))
+        return exactify(_real_np.identity(n, dtype=int).astype(object))
 
     def eye(self, n, m=None, k=0, dtype=None):
-        return SymNd(_real_np.eye(n, m, k, dtype=int).astype(object))
+        return exactify(_real_np.eye(n, m, k, dtype=int).astype(object))
 
     def arange(self, *a, **kw):
         kw.pop("dtype", None)
@@ -910,14 +943,16 @@ class NpProxy(types.ModuleType):
         return _real_np.arange(*a, **kw)
 
     def array(self, obj, dtype=None, **kw):
+        if dtype is float_shim:
+            dtype = float
         if isinstance(obj, SSparse):
             return obj.toarray()
         a = _real_np.array(obj, dtype=object) if _has_sym(obj) else _real_np.array(obj, **kw)
         if a.dtype == object:
-            return SymNd(a)
+            return exactify(a)
         if dtype is not None and a.dtype != object:
             a = a.astype(dtype)
-        return SymNd(a.astype(object)) if a.dtype.kind in "fiub" else a
+        return exactify(a.astype(object)) if a.dtype.kind in "fiu" else (SymNd(a.astype(object)) if a.dtype.kind == "b" else a)
 
     def asarray(self, obj, dtype=None, **kw):
         if isinstance(obj, SymNd):
@@ -1084,6 +1119,29 @@ class NpProxy(types.ModuleType):
         if isinstance(a, SV):
             return SV(sx.floor_(a.v))
         return _real_np.floor(a)
+
+
+def exactify(a):
+    """object array whose finite concrete numbers are SV-wrapped exact rationals (so that int/int or
+    float arithmetic inside stays exact); inf / nan remain python floats"""
+    out = np.empty(a.shape, dtype=object)
+    of, af = out.ravel(), a.ravel()
+    for i in range(af.size):
+        v = af[i]
+        if isinstance(v, (SV, SB)):
+            of[i] = v
+        elif isinstance(v, (bool, np.bool_)):
+            of[i] = bool(v)
+        elif isinstance(v, (int, np.integer)):
+            of[i] = SV(int(v))
+        elif isinstance(v, (float, np.floating)):
+            f = float(v)
+            of[i] = SV(Fraction(f)) if (f == f and abs(f) != math.inf) else f
+        elif isinstance(v, Fraction):
+            of[i] = SV(v)
+        else:
+            of[i] = v
+    return SymNd(out)
 
 
 def _has_sym(obj):
@@ -1290,12 +1348,26 @@ def to_cy_shim(arr, ty):
 
 
 # ============================================================================================ patching
+def float_shim(x=0.0):
+    """float(x) on a proxy value keeps the proxy (exact reals); otherwise the builtin"""
+    if isinstance(x, SV):
+        return x
+    if isinstance(x, SB):
+        return x._i()
+    return float(x)
+
+
+_MISSING = object()
+
+
 @contextlib.contextmanager
 def patched(modules, extra=None):
     """install the shims into the globals of the given pyunicorn modules"""
     saved = []
     try:
         for m in modules:
+            saved.append((m, "float", m.__dict__.get("float", _MISSING)))
+            m.__dict__["float"] = float_shim
             repl = {"np": NP, "sp": SP, "to_cy": to_cy_shim}
             if extra:
                 repl.update(extra.get(m.__name__, {}))
@@ -1307,7 +1379,10 @@ def patched(modules, extra=None):
         yield
     finally:
         for m, k, v in reversed(saved):
-            m.__dict__[k] = v
+            if v is _MISSING:
+                m.__dict__.pop(k, None)
+            else:
+                m.__dict__[k] = v
 
 
 def clear_caches(*classes):
